@@ -322,12 +322,16 @@ struct Sink {
     if (it != fds.end()) return it->second;
     int fd = -1;
     char name[64];
+    // output names depend on the path below the repository root only, so that the facts of an unchanged unit can be
+    // re-used for another checkout of the same sources
+    std::string relf = file;
+    if (relf.compare(0, Root.size(), Root) == 0 && relf.size() > Root.size()) relf = relf.substr(Root.size() + 1);
     if (file == mainFile) {
-      snprintf(name, sizeof name, "tu_%016llx.jsonl", (unsigned long long)fnv(file));
+      snprintf(name, sizeof name, "tu_%016llx.jsonl", (unsigned long long)fnv(relf));
       std::string p = OutDir + "/" + name;
       fd = open(p.c_str(), O_CREAT | O_TRUNC | O_WRONLY, 0644);
     } else {
-      snprintf(name, sizeof name, "h_%016llx.jsonl", (unsigned long long)fnv(file));
+      snprintf(name, sizeof name, "h_%016llx.jsonl", (unsigned long long)fnv(relf));
       std::string p = OutDir + "/" + name;
       fd = open(p.c_str(), O_CREAT | O_EXCL | O_WRONLY, 0644);
     }
